@@ -109,10 +109,13 @@ do {							\
  * ring is not empty. When read_pt has caught up with write_pt the words at
  * read_pt are stale payload of earlier chunks, which may well look like
  * a published chunk header.
+ * The order of the two tests matters when a writer runs concurrently: once
+ * write_pt has been seen to have moved on, the magic word read afterwards is
+ * the one the writer put there (allocated, then published), not a stale one.
  */
 #define QB_RB_CHUNK_IS_READABLE(rb, pointer) \
-	(QB_RB_CHUNK_MAGIC_GET(rb, pointer) == QB_RB_CHUNK_MAGIC && \
-	 (pointer) != (rb)->shared_hdr->write_pt)
+	((pointer) != (rb)->shared_hdr->write_pt && \
+	 QB_RB_CHUNK_MAGIC_GET(rb, pointer) == QB_RB_CHUNK_MAGIC)
 
 #define idx_step(idx)					\
 do {							\
